@@ -184,7 +184,7 @@ func PrimaryPackage(gocmd, path string, files []string) (*PkgInfo, error) {
 		return nil, err
 	}
 
-	if err := setImports(gocmd, info); err != nil {
+	if err := setImports(gocmd, path, info); err != nil {
 		return nil, err
 	}
 
@@ -276,7 +276,7 @@ func Package(path string, files []string) (*PkgInfo, error) {
 	return pi, nil
 }
 
-func getNamedImports(gocmd string, pkgs map[string]string) ([]*Import, error) {
+func getNamedImports(gocmd, dir string, pkgs map[string]string) ([]*Import, error) {
 	var imports []*Import
 	paths := make([]string, 0, len(pkgs))
 	for pkg := range pkgs {
@@ -286,7 +286,7 @@ func getNamedImports(gocmd string, pkgs map[string]string) ([]*Import, error) {
 	for _, pkg := range paths {
 		alias := pkgs[pkg]
 		debug.Printf("getting import package %q, alias %q", pkg, alias)
-		imp, err := getImport(gocmd, pkg, alias)
+		imp, err := getImportFrom(gocmd, dir, pkg, alias)
 		if err != nil {
 			return nil, err
 		}
@@ -297,7 +297,12 @@ func getNamedImports(gocmd string, pkgs map[string]string) ([]*Import, error) {
 
 // getImport returns the metadata about a package that has been mage:import'ed.
 func getImport(gocmd, importpath, alias string) (*Import, error) {
-	out, err := internal.OutputDebug(gocmd, "list", "-f", "{{.Dir}}||{{.Name}}", importpath)
+	return getImportFrom(gocmd, "", importpath, alias)
+}
+
+// getImportFrom is like getImport, but resolves the import path from the given directory.
+func getImportFrom(gocmd, dir, importpath, alias string) (*Import, error) {
+	out, err := internal.OutputDebugDir(dir, gocmd, "list", "-f", "{{.Dir}}||{{.Name}}", importpath)
 	if err != nil {
 		return nil, err
 	}
@@ -305,19 +310,19 @@ func getImport(gocmd, importpath, alias string) (*Import, error) {
 	if len(parts) != 2 {
 		return nil, fmt.Errorf("incorrect data from go list: %s", out)
 	}
-	dir, name := parts[0], parts[1]
-	debug.Printf("parsing imported package %q from dir %q", importpath, dir)
+	pkgDir, name := parts[0], parts[1]
+	debug.Printf("parsing imported package %q from dir %q", importpath, pkgDir)
 
 	// we use go list to get the list of files, since go/parser doesn't differentiate between
 	// go files with build tags etc, and go list does. This prevents weird problems if you
 	// have more than one package in a folder because of build tags.
-	out, err = internal.OutputDebug(gocmd, "list", "-f", `{{join .GoFiles "||"}}`, importpath)
+	out, err = internal.OutputDebugDir(dir, gocmd, "list", "-f", `{{join .GoFiles "||"}}`, importpath)
 	if err != nil {
 		return nil, err
 	}
 	files := strings.Split(out, "||")
 
-	info, err := Package(dir, files)
+	info, err := Package(pkgDir, files)
 	if err != nil {
 		return nil, err
 	}
@@ -407,7 +412,7 @@ func setNamespaces(pi *PkgInfo) {
 	}
 }
 
-func setImports(gocmd string, pi *PkgInfo) error {
+func setImports(gocmd, dir string, pi *PkgInfo) error {
 	importNames := map[string]string{}
 	rootImports := []string{}
 	fnames := make([]string, 0, len(pi.AstPkg.Files))
@@ -442,7 +447,7 @@ func setImports(gocmd string, pi *PkgInfo) error {
 			}
 		}
 	}
-	imports, err := getNamedImports(gocmd, importNames)
+	imports, err := getNamedImports(gocmd, dir, importNames)
 	if err != nil {
 		return err
 	}
@@ -452,7 +457,7 @@ func setImports(gocmd string, pi *PkgInfo) error {
 			// the same package tagged in more than one file
 			continue
 		}
-		imp, err := getImport(gocmd, s, "")
+		imp, err := getImportFrom(gocmd, dir, s, "")
 		if err != nil {
 			return err
 		}
